@@ -864,7 +864,31 @@ def describe_event(e):
     return kind + ' ' + ' '.join('%s=%s' % (k, v) for k, v in d.items() if k not in ('block',))
 
 
+def _merge_field_writes(p):
+    """`*pointer = a; *capacity = b` on a destructured column slot is the slot write `(a, b)`: add the whole-slot
+    event after the second field write (the field events stay), so that rules about what a slot is overwritten
+    with see one form."""
+    pending = {}
+    out = []
+    for e in p.events:
+        out.append(e)
+        if e['k'] == 'slot_field_write' and e['f'] in (0, 1):
+            key = tuple(e['slot'][1:4])
+            d = pending.setdefault(key, {})
+            d[e['f']] = e
+            if 0 in d and 1 in d:
+                out.append({'k': 'slot_write', 'slot': e['slot'], 'value': ('tuple', [d[0]['value'], d[1]['value']]), 'ln': d[0]['ln'], 'fn': e.get('fn'),
+                            'block': e.get('block'), 'synthetic': True})
+                pending.pop(key)
+        elif e['k'] in ('slot_write', 'tail'):
+            pending.clear()
+    if len(out) != len(p.events):
+        p.events[:] = out
+
+
 def interpret(prog, fn):
     it = Interp(prog, fn)
     paths = it.run()
+    for p in paths:
+        _merge_field_writes(p)
     return it, paths
